@@ -116,10 +116,10 @@ var pool = []BID{
 	{Hash: rep(0xA1, 20), Total: 2, PHash: rep(0xB1, 20)}, // differs only in parts total
 	{Hash: rep(0xA1, 20), Total: 1, PHash: rep(0xB2, 20)}, // differs only in parts hash
 	{Hash: rep(0xA2, 20), Total: 1, PHash: rep(0xB1, 20)},
-	{Hash: rep(0xA3, 20)},                         // no parts header
-	{Total: 3, PHash: rep(0xB3, 20)},              // no block hash, but not the nil block
-	{Hash: []byte{1, 2, 3}, PHash: []byte{0, 0}},  // key 010203 00 0102 0000
-	{Hash: []byte{1, 2, 3, 0, 1, 2}},              // key 010203000102 00 00
+	{Hash: rep(0xA3, 20)},                        // no parts header
+	{Total: 3, PHash: rep(0xB3, 20)},             // no block hash, but not the nil block
+	{Hash: []byte{1, 2, 3}, PHash: []byte{0, 0}}, // key 010203 00 0102 0000
+	{Hash: []byte{1, 2, 3, 0, 1, 2}},             // key 010203000102 00 00
 }
 
 func blockOf(blocks []BID, i int) BID {
@@ -259,11 +259,11 @@ func genPowers(t *rapid.T, n int) []int64 {
 func genBlocks(t *rapid.T) []BID {
 	k := rapid.IntRange(1, 4).Draw(t, "nblocks")
 	var idx []int
-	if rapid.IntRange(0, 24).Draw(t, "collide") == 0 {
+	if rapid.IntRange(0, 14).Draw(t, "collide") == 0 {
 		idx = []int{6, 7}
 	}
 	for len(idx) < k {
-		c := rapid.IntRange(0, len(pool)-1).Draw(t, "block")
+		c := rapid.IntRange(0, len(pool)-2).Draw(t, "block") // the key twin (7) only enters as a forced pair
 		dup := false
 		for _, e := range idx {
 			if e == c {
@@ -455,9 +455,9 @@ func errClass(err error) string {
 type refSet struct {
 	vc        *valCtx
 	nb        int
-	first     []int            // validator -> block of the first valid vote (none if no vote)
-	canon     []int            // validator -> block of the vote shared as "the" vote of the validator
-	counted   map[int][]bool   // block -> validators whose vote counts for the block
+	first     []int             // validator -> block of the first valid vote (none if no vote)
+	canon     []int             // validator -> block of the vote shared as "the" vote of the validator
+	counted   map[int][]bool    // block -> validators whose vote counts for the block
 	offered   map[[2]int]string // (validator, block) -> signature of a valid vote seen
 	tracked   map[int]bool
 	peerClaim map[int]bool
@@ -1440,8 +1440,17 @@ func runHVSCase(c HVSCase, x *h.Ctx) {
 			where = fmt.Sprintf("event %d (vote by validator %d round %d type %d from peer %q for %s, muts %v)", ei, ev.Val, ev.Round, ev.Type, ev.Peer, bidStr(bv.vote.BlockID), ev.Muts)
 			probe = ev.Round
 			add := func(v *types.Vote) (bool, error) { return hvs.AddVote(v, ev.Peer) }
+			// ignored expects the vote to be dropped silently before it reaches any vote set
+			ignored := func() (added bool, err error) {
+				defer func() {
+					if pv := recover(); pv != nil {
+						added, err = false, fmt.Errorf("panic: %v", pv)
+					}
+				}()
+				return add(bv.vote)
+			}
 			if !types.IsVoteTypeValid(typ) {
-				added, err := add(bv.vote)
+				added, err := ignored()
 				if added || err != nil {
 					if fail("hvs-bad-type", "%s: vote of unknown type gave (%v, %v)", where, added, err) {
 						return
@@ -1452,7 +1461,7 @@ func runHVSCase(c HVSCase, x *h.Ctx) {
 			if !tracked[ev.Round] {
 				if catchup[ev.Peer] >= 2 {
 					nRefused++
-					added, err := add(bv.vote)
+					added, err := ignored()
 					if added || err != nil {
 						if fail("hvs-catchup-limit", "%s: a third unexpected round from one peer gave (%v, %v), want it ignored", where, added, err) {
 							return
